@@ -47,10 +47,10 @@ fn or_panic(r: Result<Vec<Float>, String>) -> Vec<Float> { match r { Ok(v) => v,
 pub fn op_name(op: usize) -> &'static str {
     match op {
         1 => "tri_basic", 2 => "tri_new", 3 => "tri_intersect", 4 => "tri_simple",
-        5 => "plane_new", 6 => "plane_intersect", 7 => "plane_raw_intersect",
+        5 => "plane_new", 6 => "plane_intersect", 7 => "plane_raw_intersect", 8 => "plane_test_point", 9 => "ray_advance",
         10 => "disk_new_detailed", 11 => "disk_new", 12 => "disk_basic", 13 => "disk_info", 14 => "disk_local_simple",
         15 => "disk_local", 16 => "disk_intersect", 17 => "disk_simple", 18 => "disk_area",
-        20 => "ds_new", 21 => "ds_simple_local", 22 => "ds_local", 23 => "ds_intersect", 24 => "ds_simple",
+        20 => "ds_new", 21 => "ds_simple_local", 22 => "ds_local", 23 => "ds_intersect", 24 => "ds_simple", 25 => "ds_area",
         _ => "?",
     }
 }
@@ -118,6 +118,25 @@ pub fn exec(op: usize, recipe: &[Float], rays: &[Float]) -> Option<(Vec<Float>, 
                 let ray = ray_of(&rays[6 * k..]);
                 out.extend(match pl.intersect(&ray) { None => vec![0.0], Some(t) => vec![1.0, t] });
             }
+        }
+        8 => {
+            // Plane3D::test_point: the plane as for ops 6 (recipe = point, normal) / 7 (recipe = raw normal, d); `rays` = the point (3 floats)
+            let pl = if recipe.len() >= 6 { Plane3D::new(p3(&recipe[0..3]), v3(&recipe[3..6])) } else { Plane3D { normal: v3(&recipe[0..3]), d: recipe[3] } };
+            prim.extend_from_slice(&[pl.normal.x, pl.normal.y, pl.normal.z, pl.d]);
+            let q = p3(&rays[0..3]);
+            out = or_panic(catch(AssertUnwindSafe(|| vec![if pl.test_point(q) { 1.0 } else { 0.0 }])));
+        }
+        9 => {
+            // Ray3D::advance: `rays` = origin, direction, t (7 floats); out = the advanced ray
+            let mut ray = ray_of(&rays[0..6]);
+            let t = rays[6];
+            ray.advance(t);
+            out = vec![ray.origin.x, ray.origin.y, ray.origin.z, ray.direction.x, ray.direction.y, ray.direction.z];
+        }
+        25 => {
+            let s = build_ds(recipe);
+            prim.extend(ds_fields(&s));
+            out = vec![s.area()];
         }
         10 => {
             prim.extend_from_slice(&recipe[0..12]);
@@ -285,7 +304,9 @@ fn tri_uv(r: &mut Rng, cat: usize) -> (f64, f64, &'static str) {
     }
 }
 
-struct Gen<'a> { r: &'a mut Rng, sink: Sink, emph: usize }
+/// `x`: a second generator state for the operations added later (plane test_point, ray advance, distant area), so that the
+/// sequence of the other cases does not depend on them
+struct Gen<'a> { r: &'a mut Rng, x: Rng, sink: Sink, emph: usize }
 
 impl<'a> Gen<'a> {
     fn push(&mut self, op: usize, recipe: &[Float], rays: &[Float], cat: &str, extra: &str) -> bool {
@@ -338,6 +359,30 @@ impl<'a> Gen<'a> {
         let (o, d, _) = aim(self.r, q, n, mode, 0.0, f64::EPSILON);
         let cn = match mode { 0 => "towards", 1 => "behind", 2 => "parallel", 3 => "boundary:t~0", _ => "boundary:den~eps" };
         let rays: Vec<Float> = [fl3(o), fl3(d)].concat();
+        if self.x.chance(0.3) {
+            // Plane3D::test_point (|n.p - d| < EPSILON): the defining point, points of the plane up to rounding, points a little / clearly off
+            let (tp, tcat): (A3, &str) = match self.x.below(5) {
+                0 => (point, "test_point:defining"),
+                1 => (q, "test_point:on~rounding"),
+                2 | 3 => { let k = *self.x.pick(&[1e-17, 1e-16, 2e-16, 2.3e-16, 4e-16, 1e-15, 1e-14, 1e-12, 1e-9]); (add(q, scl(n, if self.x.chance(0.5) { k } else { -k })), "test_point:near") }
+                _ => (add(q, scl(n, self.x.range(-3.0, 3.0))), "test_point:off"),
+            };
+            let pt: Vec<Float> = fl3(tp).to_vec();
+            if self.x.chance(0.3) {
+                let k = self.x.below(3) as usize; let mut nn = [0.0 as Float; 3]; nn[k] = if self.x.chance(0.5) { 1.0 } else { -1.0 };
+                let dd = coord(&mut self.x) as Float;
+                let mut pp = pt.clone(); if self.x.chance(0.6) { pp[k] = dd * nn[k] + (small_delta(&mut self.x) as Float) * if self.x.chance(0.5) { 1.0 } else { 0.0 }; }
+                self.push(8, &[nn[0], nn[1], nn[2], dd], &pp, "test_point:raw", "");
+            } else {
+                self.push(8, &rec, &pt, tcat, "");
+            }
+        }
+        if self.x.chance(0.15) {
+            // Ray3D::advance(t): any t (negative, zero, huge included)
+            let t = match self.x.below(5) { 0 => 0.0, 1 => -self.x.range(0.0, 10.0), 2 => (10.0f64).powf(self.x.range(-12.0, 12.0)), _ => self.x.range(0.0, 100.0) };
+            let mut rr: Vec<Float> = [fl3(o), fl3(d)].concat(); rr.push(t as Float);
+            self.push(9, &[], &rr, "advance", "");
+        }
         if self.r.chance(0.25) {
             // raw coefficients (exactly representable normal / d)
             let k = self.r.below(3) as usize; let mut nn = [0.0 as Float; 3]; nn[k] = if self.r.chance(0.5) { 1.0 } else { -1.0 };
@@ -463,6 +508,7 @@ impl<'a> Gen<'a> {
         };
         let rec: Vec<Float> = vec![dir[0] as Float, dir[1] as Float, dir[2] as Float, angle as Float];
         if self.r.chance(0.1) { self.push(20, &rec, &[], "ctor", ""); }
+        if self.x.chance(0.08) { self.push(25, &rec, &[], "area", ""); }
         let s = build_ds(&rec);
         let sd = [s.direction.x as f64, s.direction.y as f64, s.direction.z as f64];
         let half = angle / 2.0;
@@ -523,7 +569,7 @@ fn corpus(g: &mut Gen) {
 pub fn run(seed: u64, n: usize, out: &str, emph: usize) {
     // emph: 2 = C02 (soundness: more outside / beyond-hypotenuse), 3 = C03 (decision boundaries), 13 = C13 (pairs, hit data)
     let mut r = Rng::new(seed ^ (0xF1A7 + emph as u64));
-    let mut g = Gen { r: &mut r, sink: Sink::new(out, "Flat", 250), emph };
+    let mut g = Gen { r: &mut r, x: Rng::new(seed ^ (0xF1A7E + emph as u64)), sink: Sink::new(out, "Flat", 250), emph };
     corpus(&mut g);
     let mut guard = 0usize;
     while g.sink.len() < n && guard < 50 * n + 1000 {
